@@ -2,6 +2,7 @@
 
 use crate::campaign::{campaign, seed32, Engine, InFlight, Known, Tier, WorkerReport};
 use crate::engine::Failure;
+use crate::props::digraph::DiEngine;
 use crate::props::gc::GcEngine;
 use crate::props::multi::MultiEngine;
 use crate::props::prefixes::PrefixEngine;
@@ -26,7 +27,7 @@ pub struct Meta {
     pub subs: Vec<Sub>,
 }
 
-pub const PROPS: &[&str] = &["C01", "C02", "C03", "C04", "C05", "C08", "C09", "C10", "C11", "C12", "C14", "C15", "C16", "C17", "C19"];
+pub const PROPS: &[&str] = &["C01", "C02", "C03", "C04", "C05", "C08", "C09", "C10", "C11", "C12", "C13", "C14", "C15", "C16", "C17", "C18", "C19", "C20"];
 
 pub fn leak(s: &str) -> &'static str {
     Box::leak(s.to_string().into_boxed_str())
@@ -100,6 +101,12 @@ pub fn meta(prop: &str) -> Option<Meta> {
             assumptions: &["the reachable part is mergeable within the limits (judged on the reference model); other cases are skipped and counted"],
             subs: vec![Sub { id: "treegen", quick: 8_000, thorough: 1_600_000 }],
         },
+        "C13" => Meta {
+            level: "exploration",
+            rule: "graphs: (60%) a direct digraph builder over 1..14 generated ids with up to 40 generated edges (cycles, self-reaching loops through other vertices, shared targets, parallel labels to one target up to N), data placed before/after binding; (40%) graphs left behind by generated histories with collections. For EVERY present start vertex whose reachable part is present and has <=14 vertices: slice(v) and slice_some(v,p) with p a generated table over (from,to,label) accepting all / half / none. Oracle: independent BFS on the reference model: Ok, no panic; present vertices of the slice = reachable set under p, under their original ids; accepted edges between kept vertices ⊆ kids(slice) ⊆ edges of the source, no duplicates, no edge to a dropped vertex; the complete observation of the source is unchanged. Termination: a call that recurses without bound kills the worker (reported with the in-flight case); a case running >120 s is reported as non-termination. Distinct non-trivial = distinct (graph, start, predicate) whose reachable part has a cycle or shared target and, for slice_some, where p rejects an edge between kept vertices.",
+            assumptions: &["reference model edges; rejected edges between kept vertices are allowed in the slice (the statement does not forbid them)", "watchdog margin: normal cost is microseconds"],
+            subs: vec![Sub { id: "digraph", quick: 6_000, thorough: 1_200_000 }],
+        },
         "C14" => Meta {
             level: "exploration",
             rule: "programs of <=25 ADD/BIND/PUT commands over literal ids and $variables are generated from model-guided histories and rendered with generated legal formatting (blanks/tabs/newlines around tokens, only blanks before '(', optional ν prefixes, newline-terminated # comments between commands incl. comments containing ';' and parentheses, optional final ';', empty commands, hex in upper/lower case separated by '-', blank or nothing). Well-formed text: graph A = deploy_to(text) and graph B = the direct calls (each variable bound to one next_id() at its first textual use) must have the returned count = number of commands, equal complete observations, and identical traces through the drain epilogue. Half of the cases carry one corruption (character delete/insert/replace, or a structured fault: unknown/lower-case opcode, missing parenthesis, missing argument, non-numeric or overflowing id, odd or non-hex data, label longer than 8, bad α index, missing ';'); an independent strict parser of the documented grammar classifies the corrupted text: well-formed => same equivalence oracle (if in-domain), malformed at command k => Err, no panic, and A equals the first k commands applied directly, unspecified => skipped and counted. Non-trivial: >=3 commands with a variable used twice, a comment and a ν prefix; or a text classified malformed.",
@@ -123,6 +130,18 @@ pub fn meta(prop: &str) -> Option<Meta> {
             rule: "sub-campaign labels-enum: EVERY text of length 0..=4 (quick) / 0..=5 (thorough) over the 14-symbol alphabet {a Z 7 + - _ α ρ φ 𝜑 0 1 9 space} is classified by an independent reading of the documented grammar into in-domain (must parse, print back identically, be injective, and equal the directly constructed value), must-be-rejected (more than 8 characters without α prefix, malformed or overflowing index) or unspecified (empty, contains a space, +index, leading zeros, α-index text longer than 8: skipped and counted); sub-campaign labels: generated texts of length 5..=10 over the alphabet, arbitrary unicode texts, α+1..22 digits; every canonical value (Greek(c), Alpha(n), Str of 2..=8) met is printed, parsed back, compared, and looked up in a graph (bind under the constructed label, kid under the parsed one). Distinct non-trivial = distinct judged (not unspecified) texts.",
             assumptions: &["the text grammar as read from the property statement and src/label.rs documentation (DESIGN §6 C17 lists the unspecified classes)"],
             subs: vec![Sub { id: "labels-enum", quick: 1, thorough: 1 }, Sub { id: "labels", quick: 400, thorough: 32_000 }],
+        },
+        "C18" => Meta {
+            level: "exploration",
+            rule: "graphs as C13 (digraph builder and histories with collections, never-added slots, dangling edges, data of all lengths incl. empty, labels that need no escaping, capacities 2..256). Oracle: to_xml() parsed with sxd-document and to_dot() parsed with a line grammar of the fixed format: node list = keys() in ascending order (none for absent ids); per node the edge set (label, target) = the model's edges; data = the model's bytes for exactly the vertices that have data. Metamorphic: for graphs without dangling edges a second graph with the same present vertices, edges and data is built differently (other capacity, reversed add/bind/label order, junk created and collected first, other read status) and must print byte-identical XML and DOT. Non-trivial: an absent id below the largest present id, a vertex with >=2 edges, and a datum.",
+            assumptions: &["reference model for vertices/edges/data", "DOT line grammar as documented in src/dot.rs"],
+            subs: vec![Sub { id: "digraph", quick: 6_000, thorough: 1_200_000 }],
+        },
+        "C20" => Meta {
+            level: "exploration",
+            rule: "graphs as C13; for EVERY present start vertex inspect(v) is parsed by indentation into (source, label, target, seen-mark) records: for every vertex reachable from v through present vertices the records with that source must equal its edges exactly once each (what is printed beneath an edge to a collected vertex is not judged); v_print(v) must show Δ exactly when the vertex has data and list exactly its labels; Debug and Display must be equal and contain one block per present vertex (none for absent ids) with exactly its edges and its data bytes. Termination as C13. Distinct non-trivial = distinct (graph, start) whose reachable part has a cycle or a shared target.",
+            assumptions: &["reference model for vertices/edges/data", "output formats as produced by src/inspect.rs and src/debug.rs (parsers in harness/src/props/digraph.rs)"],
+            subs: vec![Sub { id: "digraph", quick: 6_000, thorough: 1_200_000 }],
         },
         "C19" => Meta {
             level: "exploration",
@@ -158,6 +177,7 @@ pub fn run_sub(
         ("C19", "multi-config") => campaign(&MultiEngine, tier, seed, cases, known, inflight, 600),
         ("C11", "treegen") => campaign(&TreeEngine { extras: false }, tier, seed, cases, known, inflight, 1500),
         ("C12", "treegen") => campaign(&TreeEngine { extras: true }, tier, seed, cases, known, inflight, 1500),
+        ("C13" | "C18" | "C20", "digraph") => campaign(&DiEngine { prop: leak(prop) }, tier, seed, cases, known, inflight, 1200),
         ("C14", "scriptgen") => campaign(&ScriptEngine, tier, seed, cases, known, inflight, 800),
         ("C15", "hexenum") => campaign(&HexEngine, tier, seed, cases, known, inflight, 50),
         ("C16", "concatenum") => {
@@ -185,6 +205,7 @@ pub fn replay(prop: &str, engine: &str, payload: &Value) -> Result<Option<Failur
         ("C19", "multi-config") => Ok(MultiEngine.replay(payload)),
         ("C11", "treegen") => Ok(TreeEngine { extras: false }.replay(payload)),
         ("C12", "treegen") => Ok(TreeEngine { extras: true }.replay(payload)),
+        ("C13" | "C18" | "C20", "digraph") => Ok(DiEngine { prop: leak(prop) }.replay(payload)),
         ("C14", "scriptgen") => Ok(ScriptEngine.replay(payload)),
         ("C15", "hexenum") => Ok(HexEngine.replay(payload)),
         ("C16", "concatenum") => Ok(ConcatEngine { tolerate: Default::default() }.replay(payload)),
@@ -207,6 +228,7 @@ pub fn run_case(prop: &str, engine: &str, case: &Value) -> Result<Option<Failure
         ("C19", "multi-config") => Ok(MultiEngine.run(&serde_json::from_value(case.clone()).map_err(|e| e.to_string())?).failure),
         ("C11", "treegen") => Ok(TreeEngine { extras: false }.run(&serde_json::from_value(case.clone()).map_err(|e| e.to_string())?).failure),
         ("C12", "treegen") => Ok(TreeEngine { extras: true }.run(&serde_json::from_value(case.clone()).map_err(|e| e.to_string())?).failure),
+        ("C13" | "C18" | "C20", "digraph") => Ok(DiEngine { prop: leak(prop) }.run(&serde_json::from_value(case.clone()).map_err(|e| e.to_string())?).failure),
         ("C14", "scriptgen") => Ok(ScriptEngine.run(&serde_json::from_value(case.clone()).map_err(|e| e.to_string())?).failure),
         ("C15", "hexenum") => Ok(HexEngine.replay(case)),
         ("C16", "concatenum") => Ok(ConcatEngine { tolerate: Default::default() }.replay(case)),
